@@ -124,6 +124,11 @@ type c16Case struct {
 	// FuncTypes: the interceptors are connect.UnaryInterceptorFunc values
 	// rather than values of the harness's struct type (unary calls only).
 	FuncTypes bool `json:"func_types,omitempty"`
+	// FuncMask: the positions whose bit is set hold connect.UnaryInterceptorFunc
+	// values, the others values of the struct type (any kind of call: on
+	// streaming calls a UnaryInterceptorFunc is a documented no-op, so the
+	// reference onion then consists of the other positions).
+	FuncMask int `json:"func_mask,omitempty"`
 	// SharedLast: the LAST group is one option value that was first applied,
 	// behind a different leading interceptor, by another client and handler.
 	SharedLast bool `json:"shared_last,omitempty"`
@@ -136,6 +141,9 @@ func (k c16Case) key() string {
 	}
 	if k.FuncTypes {
 		side += "/functypes"
+	}
+	if k.FuncMask != 0 {
+		side += fmt.Sprintf("/funcmask%b", k.FuncMask)
 	}
 	if k.SharedLast {
 		side += "/sharedlast"
@@ -158,6 +166,12 @@ func (k c16Case) build(log *[]string) (clientOpts []connect.ClientOption, handle
 			items[i] = l
 			if k.FuncTypes {
 				items[i] = connect.UnaryInterceptorFunc(l.WrapUnary)
+			}
+			if k.FuncMask&(1<<i) != 0 {
+				items[i] = connect.UnaryInterceptorFunc(l.WrapUnary)
+				if k.Kind != KUnary {
+					continue // no part in a streaming call
+				}
 			}
 			flat = append(flat, i+1)
 		}
@@ -681,6 +695,13 @@ func TestC16(t *testing.T) {
 						kf.FuncTypes = true
 						c.Case(kf.key(), nonNil > 0)
 						Bubble(t, func() { c16Check(c, kf) })
+					}
+					// every mix of the two interceptor types, on every kind of call
+					for fm := 1; fm < (1<<k.N)-1; fm++ {
+						km := k
+						km.FuncMask = fm
+						c.Case(km.key(), nonNil > 0)
+						Bubble(t, func() { c16Check(c, km) })
 					}
 					if k.Cuts != 0 {
 						ks := k
